@@ -2,7 +2,7 @@
 import os
 from fractions import Fraction as Fr
 from . import common as C
-from .chanmodels import models
+from .chanmodels import models, Chan
 from .ir.num import NumInterp, Unsupported
 from .p06 import inner_fn, in_range, norm_ret, accept_inconclusive
 
@@ -15,8 +15,30 @@ EXPLANATION = ("Static analysis: the inlined LLVM IR of channel_multiply and cha
                "(constant propagation). Not decided: exactness of the maximum as identity (the div255 bound is 0.502).")
 
 
+CUSTOM_HDR = [
+    "namespace vfc {",
+    "struct f_lo { static float apply() { return -0.5f; } }; struct f_hi { static float apply() { return 0.5f; } };",
+    "struct v_lo { static std::uint8_t apply() { return 16; } }; struct v_hi { static std::uint8_t apply() { return 235; } };",
+    "struct s_lo { static std::int16_t apply() { return -1024; } }; struct s_hi { static std::int16_t apply() { return 3071; } };",
+    "using fpm_t = boost::gil::scoped_channel_value<float, f_lo, f_hi>;",
+    "using video8_t = boost::gil::scoped_channel_value<std::uint8_t, v_lo, v_hi>;",
+    "using ct16_t = boost::gil::scoped_channel_value<std::int16_t, s_lo, s_hi>;",
+    "}"]
+
+
+def custom_models():
+    """channel models with a range minimum that is neither 0 nor the type's own minimum (scoped_channel_value with user limits):
+    only channel_invert is stated for them"""
+    return [Chan("cfpm", "vfc::fpm_t", "float", "float", 32, -0.5, 0.5, integral=False),
+            Chan("cvid", "vfc::video8_t", "uint8_t", "int", 8, 16, 235),
+            Chan("cct", "vfc::ct16_t", "int16_t", "int", 16, -1024, 3071, signed=True)]
+
+
 def gen_driver(chans, path):
-    L = ['#include <boost/gil.hpp>', 'using namespace boost::gil;', 'extern "C" {']
+    L = ['#include <boost/gil.hpp>', 'using namespace boost::gil;'] + CUSTOM_HDR + ['extern "C" {']
+    for c in custom_models():
+        L.append('%s w_inv_%s(%s x){ return (%s)channel_invert(%s); }' % (c.raw, c.tag, c.raw, c.raw, c.make("x")))
+        L.append('%s w_inv2_%s(%s x){ return (%s)channel_invert(channel_invert(%s)); }' % (c.raw, c.tag, c.raw, c.raw, c.make("x")))
     for c in chans:
         L.append('%s w_mul_%s(%s a, %s b){ return (%s)channel_multiply(%s, %s); }' % (c.raw, c.tag, c.raw, c.raw, c.raw, c.make("a"), c.make("b")))
         L.append('%s w_mulsw_%s(%s a, %s b){ return (%s)channel_multiply(%s, %s); }' % (c.raw, c.tag, c.raw, c.raw, c.raw, c.make("b"), c.make("a")))
@@ -65,7 +87,8 @@ def run(rep):
     rep.rule("R8 exact laws of integral channels: commutativity is proved when multiply(a,b) and multiply(b,a) have the same polynomial normal form; "
              "otherwise, and for `max is the identity`, a refutation needs a witness (operand pair found by constant propagation through the same IR); "
              "no witness = not decided (never a pass)")
-    for c in chans:
+    customs = custom_models()
+    for c in chans + customs:
         rep.count("models")
         T = c.cxx
         # ---- invert
@@ -96,6 +119,8 @@ def run(rep):
                                   {"expected": "%s*x + %s" % (want_c, want_e), "got": "%s + [%s,%s]" % ({k: str(v) for k, v in ret.aff.items()}, ret.elo, ret.ehi)})
             else:
                 rep.incon("R3-invert-form", key, "no affine form")
+        if c in customs:
+            continue        # multiply is not defined for user-limited ranges beyond the generic formula; only invert is stated
         # ---- multiply
         what = "channel_multiply<%s>" % T
         try:
@@ -194,7 +219,7 @@ def run(rep):
                               {"inputs": [str(x), str(y)], "got": str(r.lo), "expected": str(want)})
             else:
                 rep.incon("R7-corner", key, "result %r" % (r,))
-    rep.floor("models", len(chans))
+    rep.floor("models", len(chans) + len(customs))
     accept_inconclusive(rep, "c07_inconclusive.json")
 
 
